@@ -217,6 +217,9 @@ func (e *Encoder) writeValue(val reflect.Value, tagType byte) error {
 		} else {
 			str = []byte(val.String())
 		}
+		if len(str) > math.MaxInt16 {
+			return errStringTooLong
+		}
 		if err := writeInt16(e.w, int16(len(str))); err != nil {
 			return err
 		}
@@ -407,11 +410,18 @@ func getTagTypeByType(vk reflect.Type) byte {
 	}
 }
 
+// errStringTooLong: strings and tag names carry a 16-bit length which the
+// decoders of this package read as signed.
+var errStringTooLong = errors.New("nbt: string is longer than 32767 bytes")
+
 func writeTag(w io.Writer, tagType byte, tagName string) error {
 	if _, err := w.Write([]byte{tagType}); err != nil {
 		return err
 	}
 	bName := []byte(tagName)
+	if len(bName) > math.MaxInt16 {
+		return errStringTooLong
+	}
 	if err := writeInt16(w, int16(len(bName))); err != nil {
 		return err
 	}
